@@ -344,7 +344,14 @@ pub fn run_c15(ctx: &Ctx) -> i32 {
         };
         // k distinguishable real proofs (distinct nullifiers), compatible
         let block = rand_d4(&mut rng);
-        let supplied: Vec<Slot> = (0..k).map(|i| Slot { asset: F::ZERO, out1: f(10 + i as u64), out2: f(1), fee: f(5), nullifier: rand_d4(&mut rng), exit1: rand_d4(&mut rng), exit2: rand_d4(&mut rng), block_hash: block, number: f(9) }).collect();
+        let mut supplied: Vec<Slot> = (0..k).map(|i| Slot { asset: F::ZERO, out1: f(10 + i as u64), out2: f(1), fee: f(5), nullifier: rand_d4(&mut rng), exit1: rand_d4(&mut rng), exit2: rand_d4(&mut rng), block_hash: block, number: f(9) }).collect();
+        // in some shapes the last supplied proof is a CALLER-SUPPLIED dummy-sentinel leaf (zero block hash and outputs, its own
+        // nullifier field and fee, so it is distinguishable from the padding template): commit must treat it like any supplied proof
+        if k >= 2 && (n + k) % 2 == 1 {
+            let last = supplied.len() - 1;
+            supplied[last] = Slot { asset: F::ZERO, out1: F::ZERO, out2: F::ZERO, fee: f(7), nullifier: rand_d4(&mut rng), exit1: [F::ZERO; 4], exit2: [F::ZERO; 4], block_hash: [F::ZERO; 4], number: f(0) };
+            rep.count("private:shapes_with_a_caller_supplied_dummy_leaf");
+        }
         let proofs: Vec<Proof> = supplied.iter().map(|s| fake.prove(&s.to_pis()).unwrap()).collect();
         let tpl_pis = zero_slot().to_pis();
         let mut arrangement_counts: BTreeMap<Vec<i32>, u64> = BTreeMap::new();
